@@ -45,17 +45,7 @@ type prog struct {
 	A int      `json:"a"` // instance index (close/destroy) or thread (cancel)
 }
 
-func (p prog) coq() string {
-	switch p.K {
-	case pSummon:
-		return "PSummon"
-	case pClose:
-		return common.App("PClose", common.Nat(p.A))
-	case pDestroy:
-		return common.App("PDestroy", common.Nat(p.A))
-	}
-	return common.App("PCancel", common.Nat(p.A))
-}
+func (p prog) coq() string { return fmt.Sprintf("(%d,%d)", int(p.K), p.A) }
 func (p prog) String() string {
 	return [...]string{"summon", "close", "destroy", "cancel"}[p.K] + fmt.Sprintf("(%d)", p.A)
 }
@@ -65,18 +55,37 @@ var parkSites = []string{"summon.loaded", "summon.body", "summon.found", "summon
 
 type obsEv struct {
 	T       int
-	L       string // Coq label term
+	K, A, C int    // wire format: label code, argument, count+1000
+	L       string // Coq label term (human readable / classification)
 	Sampled bool
 	Map     int // model instance index in the map, -1 none
 	human   string
 }
 
-func (o obsEv) coq() string {
-	m := "None"
-	if o.Map >= 0 {
-		m = common.Some(common.Nat(o.Map))
+var labelCode = map[string]int{"LLoaded": 0, "LRetry": 1, "LWait": 2, "LEntered": 3, "LCtxLeave": 4, "LFound": 5, "LNil": 6,
+	"LCtxDone": 7, "LWaitClose": 8, "LReturn": 9, "LClosed": 10, "LTimeout": 11, "LNew": 12, "LStored": 13, "LLeave": 14,
+	"LCloseBegin": 15, "LCloseSkip": 16, "LCancelled": 17, "LCallback": 18, "LDMarked": 19, "LDBegin": 20, "LDSkip": 21,
+	"LCancel": 22, "LCbStart": 23}
+
+// mk builds an event from a label name and its arguments (a = slot/instance/thread number, c = count).
+func mk(t int, name string, a int, c int64, human string) obsEv {
+	l := name
+	switch name {
+	case "LNil", "LCtxDone":
+	case "LLeave":
+		l = common.App(name, common.Nat(a), common.Z(c))
+	default:
+		l = common.App(name, common.Nat(a))
 	}
-	return fmt.Sprintf("{| o_t := %s; o_l := %s; o_sampled := %s; o_map := %s |}", common.Nat(o.T), o.L, common.Bool(o.Sampled), m)
+	return obsEv{T: t, K: labelCode[name], A: a, C: int(c) + 1000, L: l, Map: -1, human: human}
+}
+
+func (o obsEv) coq() string {
+	m := 0
+	if o.Sampled {
+		m = o.Map + 2
+	}
+	return fmt.Sprintf("(%d,%d,%d,%d,%d)", o.T, o.K, o.A, o.C, m)
 }
 
 type result struct {
@@ -171,62 +180,63 @@ func (e *env) runForced(progs []prog, sched []int, debug bool) result {
 			if debug {
 				res.raw = append(res.raw, fmt.Sprintf("t%d %s %v", ev.Tid, ev.Site, ev.Args))
 			}
-			var l string
-			sl := func() string { return common.Nat(slotN.get(a(0))) }
-			in := func() string { return common.Nat(instN.get(a(0))) }
+			hum := fmt.Sprintf("t%d %s %v", ev.Tid, ev.Site, ev.Args)
+			sl := func() int { return slotN.get(a(0)) }
+			in := func() int { return instN.get(a(0)) }
+			var o obsEv
 			switch ev.Site {
 			case "summon.loaded":
-				l = common.App("LLoaded", sl())
+				o = mk(ev.Tid, "LLoaded", sl(), 0, hum)
 			case "summon.retry":
-				l = common.App("LRetry", sl())
+				o = mk(ev.Tid, "LRetry", sl(), 0, hum)
 			case "summon.wait":
-				l = common.App("LWait", sl())
+				o = mk(ev.Tid, "LWait", sl(), 0, hum)
 				res.waits++
 			case "summon.entered":
-				l = common.App("LEntered", sl())
+				o = mk(ev.Tid, "LEntered", sl(), 0, hum)
 			case "summon.ctxleave":
 				// the leave bookkeeping of the same step was already logged as summon.leave: drop it
 				if n := len(batch); n > 0 && batch[n-1].T == ev.Tid && strings.HasPrefix(batch[n-1].L, "(LLeave ") {
 					batch = batch[:n-1]
 				}
-				l = common.App("LCtxLeave", sl())
+				o = mk(ev.Tid, "LCtxLeave", sl(), 0, hum)
 			case "summon.found":
-				l = common.App("LFound", in())
+				o = mk(ev.Tid, "LFound", in(), 0, hum)
 			case "summon.create":
-				l = "LNil"
+				o = mk(ev.Tid, "LNil", 0, 0, hum)
 			case "summon.ctxdone":
-				l = "LCtxDone"
+				o = mk(ev.Tid, "LCtxDone", 0, 0, hum)
 			case "summon.waitclose":
-				l = common.App("LWaitClose", in())
+				o = mk(ev.Tid, "LWaitClose", in(), 0, hum)
 			case "summon.return":
-				l = common.App("LReturn", in())
+				o = mk(ev.Tid, "LReturn", in(), 0, hum)
 			case "summon.closed":
-				l = common.App("LClosed", in())
+				o = mk(ev.Tid, "LClosed", in(), 0, hum)
 			case "swamp.new":
 				instIDs = append(instIDs, a(0))
-				l = common.App("LNew", in())
+				o = mk(ev.Tid, "LNew", in(), 0, hum)
 			case "summon.stored":
-				l = common.App("LStored", in())
+				o = mk(ev.Tid, "LStored", in(), 0, hum)
 			case "summon.leave":
-				l = common.App("LLeave", sl(), common.Z(a(1)))
+				o = mk(ev.Tid, "LLeave", sl(), a(1), hum)
 			case "swamp.close.begin":
-				l = common.App("LCloseBegin", in())
+				o = mk(ev.Tid, "LCloseBegin", in(), 0, hum)
 			case "close.skip":
-				l = common.App("LCloseSkip", common.Nat(int(a(0))))
+				o = mk(ev.Tid, "LCloseSkip", int(a(0)), 0, hum)
 			case "swamp.cancelling":
-				l = common.App("LCancelled", in())
+				o = mk(ev.Tid, "LCancelled", in(), 0, hum)
 			case "swamp.callback":
-				l = common.App("LCbStart", in())
+				o = mk(ev.Tid, "LCbStart", in(), 0, hum)
 			case "swamp.callback.done":
-				l = common.App("LCallback", in())
+				o = mk(ev.Tid, "LCallback", in(), 0, hum)
 			case "swamp.destroy.marked":
-				l = common.App("LDMarked", in())
+				o = mk(ev.Tid, "LDMarked", in(), 0, hum)
 			case "swamp.destroy.begin":
-				l = common.App("LDBegin", in())
+				o = mk(ev.Tid, "LDBegin", in(), 0, hum)
 			case "destroy.skip":
-				l = common.App("LDSkip", common.Nat(int(a(0))))
+				o = mk(ev.Tid, "LDSkip", int(a(0)), 0, hum)
 			case "ctx.cancel":
-				l = common.App("LCancel", common.Nat(int(a(0))))
+				o = mk(ev.Tid, "LCancel", int(a(0)), 0, hum)
 			case "summon.woke", "summon.load", "summon.body", "summon.store", "summon.exit", "summon.broadcast",
 				"swamp.mapdelete", "swamp.destroy.drained", "summon.slotdelete",
 				"swamp.idle.read", "swamp.idle.close", "swamp.autodestroy", "summon.predec", "summon.predelete":
@@ -235,7 +245,7 @@ func (e *env) runForced(progs []prog, sched []int, debug bool) result {
 				res.unknownEv = append(res.unknownEv, ev.Site)
 				continue
 			}
-			batch = append(batch, obsEv{T: ev.Tid, L: l, Map: -1, human: fmt.Sprintf("t%d %s %v", ev.Tid, ev.Site, ev.Args)})
+			batch = append(batch, o)
 		}
 		consumed = len(log)
 		last := len(batch) - 1
@@ -416,7 +426,7 @@ func coqCase(progs []prog, r result) string {
 	for i, o := range r.tail {
 		tl[i] = o.coq()
 	}
-	return fmt.Sprintf("{| c_progs := %s; c_trace := %s; c_tail := %s |}", common.List(ps), common.List(tr), common.List(tl))
+	return fmt.Sprintf("(%s, %s, %s)", common.List(ps), common.List(tr), common.List(tl))
 }
 
 func humanTrace(r result) []string {
@@ -521,8 +531,7 @@ func (e *env) stress(rng *common.Rng, round int, nsummon, nnames int, dur time.D
 			continue
 		}
 		k := v.(int)
-		per[k] = append(per[k], obsEv{T: 0, L: common.App(lbl, common.Nat(nums[k].get(ev.Args[0]))), Map: -1,
-			human: fmt.Sprintf("g%d %s %v", ev.Gid, ev.Site, ev.Args)})
+		per[k] = append(per[k], mk(0, lbl, nums[k].get(ev.Args[0]), 0, fmt.Sprintf("g%d %s %v", ev.Gid, ev.Site, ev.Args)))
 	}
 	for k := range per {
 		// cut into chunks at points where no instance is live (keeps the Coq terms small)
@@ -593,6 +602,7 @@ func roundRobin(n, rounds int) []int {
 func main() {
 	a := common.ParseArgs()
 	run := common.NewRun(a, "C18", "HV.Conc.Summon")
+	run.Shard = 120
 	run.Meta.Rule = "a forced case = programs (summon / Close(i) / Destroy(i) / cancel) of 3-6 harness goroutines on one swamp name of a real Hydra, released step by step at the SummonSwamp/Close/Destroy hook points in the order of a schedule (witnesses of Conc/Summon.v, systematic two-preemption family, seeded random); the hook events are replayed by Conc/Summon.v and the oracle (max live instances, returned instance = map entry) is evaluated on them; a stress case = the swamp.new/cancel event order of one name under free-running goroutines (oracle only); non-trivial = some summoner had to wait on the slot, or two instances were constructed for the name, or a close/destroy ran between two summons"
 	rng := common.NewRng(a.Seed, "C18")
 	debug := os.Getenv("C18_DEBUG") != ""
